@@ -88,30 +88,48 @@ def fwd_memory(allow: bool, has_v: bool, v: str, site: int, form: int) -> bool:
     return expect("parse", allow, False, version)
 
 
-def fwd_filesystem(allow: bool, has_v: bool, v: str, site: int) -> bool:
+def fwd_filesystem(allow: bool, has_v: bool, v: str, site: int, layout: int = 0, other: bool = False) -> bool:
     """
-    pre: len(v) <= 3 and 0 <= site <= 4
+    pre: len(v) <= 3 and 0 <= site <= 4 and 0 <= layout <= 2
     post: _
     """
-    site = pick(site, 5)
+    site, layout, other = pick(site, 5), pick(layout, 3), pickb(other)
     version = v if has_v else None
     Rec.calls = []
     ffs = fakefs.FakeFS()
     xid = "x--311b2d2d-f010-4473-83ec-1edf84858f4c"
-    ffs.makedirs("/fs/x/" + xid)
-    ffs.files["/fs/x/%s/20200101000000000.json" % xid] = json.dumps({"type": "x", "id": xid, "modified": "2020-01-01T00:00:00.000Z"})
+    yid = "x--411b2d2d-f010-4473-83ec-1edf84858f4c"
+    # layouts of a type directory: 0 one directory per id with a file per version; 1 flat <id>.json files only; 2 mixed: a versioned id, the
+    # same id once more as a legacy flat file, and another id that exists only as a flat file (unversioned objects are stored that way)
+    files = {}
+    if layout in (0, 2):
+        ffs.makedirs("/fs/x/" + xid)
+        files["/fs/x/%s/20200101000000000.json" % xid] = xid
+    else:
+        ffs.makedirs("/fs/x")
+    if layout in (1, 2):
+        files["/fs/x/%s.json" % xid] = xid
+        files["/fs/x/%s.json" % yid] = yid
+    for path, id_ in files.items():
+        ffs.files[path] = json.dumps({"type": "x", "id": id_, "modified": "2020-01-01T00:00:00.000Z"} if "/2020" in path else {"type": "x", "id": id_})
+    qid = yid if (other and layout != 0) else xid
     saved = fakefs.install(F, ffs)
     saved_p = F.parse
     F.parse = rec_parse
+    want_calls = None
     try:
         if site == 0:
-            F._check_object_from_file([], "/fs/x/%s/20200101000000000.json" % xid, allow, version, "utf-8")
+            F._check_object_from_file([], sorted(files)[0], allow, version, "utf-8")
+            want_calls = 1
         elif site == 1:
             F.FileSystemSource("/fs", allow_custom=allow).query([], version=version)
+            want_calls = len(files)                       # every stored file is read and parsed, each with the named version
         elif site == 2:
-            F.FileSystemSource("/fs", allow_custom=allow).get(xid, version=version)
+            F.FileSystemSource("/fs", allow_custom=allow).get(qid, version=version)
+            want_calls = sum(1 for i in files.values() if i == qid)
         elif site == 3:
-            F.FileSystemSource("/fs", allow_custom=allow).all_versions(xid, version=version)
+            F.FileSystemSource("/fs", allow_custom=allow).all_versions(qid, version=version)
+            want_calls = sum(1 for i in files.values() if i == qid)
         else:
             try:
                 F.FileSystemSink("/fs", allow_custom=allow).add({"type": "x", "id": "x--2"}, version=version)
@@ -121,7 +139,7 @@ def fwd_filesystem(allow: bool, has_v: bool, v: str, site: int) -> bool:
         F.parse = saved_p
         F.os, F.io = saved
     V.reached()
-    return expect("parse", allow, False, version)
+    return expect("parse", allow, False, version) and (want_calls is None or len(Rec.calls) == want_calls)
 
 
 def fwd_observable_property(allow: bool, v21: bool) -> bool:
